@@ -21,6 +21,7 @@ path "rb/*" { capabilities = ["create","read","update","delete","list"] }
 type c18Env struct {
 	tc    *tcore
 	hub   *recHub
+	entUser string // requester whose access to rb/ comes from the policies of its identity entity
 	user  string // requester token
 	other string // third-party token (default policy only)
 	n     int
@@ -40,6 +41,19 @@ func newC18Env(t *testing.T, transactional bool) *c18Env {
 	e.other, _, _ = tc.createToken(tc.root, map[string]any{"policies": []string{"default", "c18wrap"}, "ttl": "1h"})
 	if e.user == "" || e.other == "" {
 		t.Fatalf("harness: cannot create tokens")
+	}
+	// a requester bound to an identity entity that carries the policy (its token only has "default")
+	er, err := tc.c.identityStore.HandleRequest(tc.ctx, &logical.Request{Operation: logical.UpdateOperation, Path: "entity",
+		Data: map[string]any{"name": "c18-entity", "policies": []string{"c18"}}})
+	if err != nil || er == nil || er.IsError() {
+		t.Fatalf("harness: entity: %v %v", er, err)
+	}
+	entityID, _ := er.Data["id"].(string)
+	te := &logical.TokenEntry{Path: "test", Policies: []string{"default"}, EntityID: entityID, TTL: time.Hour}
+	testMakeTokenDirectly(t, tc.ctx, tc.c.tokenStore, te)
+	e.entUser = te.ID
+	if r := tc.req(logical.ReadOperation, "rb/echo/probe", e.entUser, nil); !r.ok() {
+		t.Fatalf("harness: the entity-bound requester cannot use its identity policy: %v", r)
 	}
 	for i := 0; i < 3; i++ {
 		tc.mustOK(tc.req(logical.UpdateOperation, fmt.Sprintf("rb/kv/list/k%d", i), tc.root, map[string]any{"v": i}), "seed kv")
@@ -125,13 +139,18 @@ func TestVerif_C18_UnwrapOnce(t *testing.T) {
 		if mode == 0 {
 			wrapTTL = time.Second
 		}
+		requester := e.user
+		viaEntity := fairIndex(rt, "requesterViaEntity", 3) == 0
+		if viaEntity {
+			requester = e.entUser
+		}
 		// ---- create the wrapped response
 		var creq *logical.Request
 		switch source {
 		case "echo":
-			creq = &logical.Request{Operation: logical.UpdateOperation, Path: "rb/echo/w", ClientToken: e.user, Data: map[string]any{"marker": canary}}
+			creq = &logical.Request{Operation: logical.UpdateOperation, Path: "rb/echo/w", ClientToken: requester, Data: map[string]any{"marker": canary}}
 		case "secret":
-			creq = &logical.Request{Operation: logical.UpdateOperation, Path: "rb/creds/w", ClientToken: e.user, Data: map[string]any{"marker": canary}}
+			creq = &logical.Request{Operation: logical.UpdateOperation, Path: "rb/creds/w", ClientToken: requester, Data: map[string]any{"marker": canary}}
 		case "login":
 			e.hub.mu.Lock()
 			e.hub.loginAuth = func(req *logical.Request) *logical.Auth {
@@ -142,7 +161,7 @@ func TestVerif_C18_UnwrapOnce(t *testing.T) {
 			creq = &logical.Request{Operation: logical.UpdateOperation, Path: "auth/ra/login", Data: map[string]any{"marker": canary}}
 		case "kvread":
 			tc.mustOK(tc.req(logical.UpdateOperation, "rb/kv/wrapped", tc.root, map[string]any{"v": canary}), "seed")
-			creq = &logical.Request{Operation: logical.ReadOperation, Path: "rb/kv/wrapped", ClientToken: e.user}
+			creq = &logical.Request{Operation: logical.ReadOperation, Path: "rb/kv/wrapped", ClientToken: requester}
 		}
 		creq.WrapInfo = &logical.RequestWrapInfo{TTL: wrapTTL}
 		seq0 := tc.rec.Seq()
@@ -162,7 +181,7 @@ func TestVerif_C18_UnwrapOnce(t *testing.T) {
 			for i, tk := range tasks {
 				ks[i] = fmt.Sprintf("%s=%v delivered=%v", tk.kind, tk.res, tk.delivered)
 			}
-			return map[string]any{"source": source, "mode": mode, "attempts": ks, "transactional": txn}
+			return map[string]any{"source": source, "mode": mode, "attempts": ks, "transactional": txn, "requester_policies_via_entity": viaEntity}
 		}
 		if containsCanary(cres.resp, canary) {
 			rec.Violation(rt, "payload-returned-to-requester", describe(), "the response to the original requester contains the wrapped payload")
